@@ -17,7 +17,10 @@ RULE = (
     "case = one multiset of forest rule keys (2-15 rules over <= 8 labels, arity 0-3 with "
     "repeated children, shifts in -3..3, random or hostile shape) inserted into the real "
     "TableMethod in several orders (all distinct permutations when <= 5 rules); after every "
-    "insertion the reported function is compared with the independent least fixed point. "
+    "insertion the reported function is compared with the independent least fixed point. The "
+    "thorough tier adds a small-scope exhaustive layer: every multiset of 1-3 rules over two labels "
+    "(arity <= 2, shifts -1..1), every pair of rules over three labels, every pair over two labels "
+    "with shifts -2..2, all distinct insertion orders each (about 175 000 multisets). "
     "non-trivial = the final least fixed point has at least one infinite and one finite "
     "non-zero value, or an infinite value reached through a negative shift; distinct = "
     "distinct multiset fingerprints"
@@ -48,12 +51,14 @@ FLOORS = {
     "thorough": {"nontrivial": 2000, "counters": {"table.lfp_compared": 400000,
                                                    "table.lfp_compared_with_finite_nonzero": 40000,
                                                    "function.invariant_evaluated": 1000,
-                                                   "c03.order_pairs_compared": 40000}},
+                                                   "c03.order_pairs_compared": 40000,
+                                                   "c03.exhaustive_multisets": 175000}},
 }
 # W5: the repository's own test suite runs once under these ambient monitors (thorough tier)
 W5_MONITORS = ['table']
-CASE_TIMEOUT = {"quick": 60, "thorough": 120}
+CASE_TIMEOUT = {"quick": 60, "thorough": 600}
 SIZES = {"quick": 1400, "thorough": 30000}
+EXHAUSTIVE = {"quick": False, "thorough": False}  # the exhaustive layer covers a small scope only
 
 
 def shard_setup(tier):
@@ -70,6 +75,44 @@ def gen_cases(tier, seed):
             rules = intuniv.random_universe(rng)
             shape = "random"
         yield {"id": i, "shape": shape, "rules": rules, "order_seed": f"{seed}/C03/o/{i}"}
+    if tier == "thorough":
+        yield from gen_exhaustive()
+
+
+def small_rules(labels=2, max_arity=2, shifts=(-1, 0, 1)):
+    """Every rule over `labels` labels with arity <= max_arity and shifts from `shifts`."""
+    import itertools
+
+    out = []
+    for p in range(labels):
+        for arity in range(max_arity + 1):
+            for cs in itertools.product(range(labels), repeat=arity):
+                for sh in itertools.product(shifts, repeat=arity):
+                    out.append([p, list(cs), list(sh), "VERIFICATION" if arity == 0 else "NORMAL"])
+    return out
+
+
+def gen_exhaustive(block=400):
+    """Small-scope exhaustive layer (thorough tier): every multiset of 1-3 rules over two
+    labels (arity <= 2, shifts in -1..1), every pair of rules over three labels, and every
+    pair over two labels with shifts in -2..2 - each inserted in all of its distinct orders."""
+    import itertools
+
+    k, cur = 0, []
+    # scopes: (labels, max arity, shifts, multiset sizes)
+    scopes = ((2, 2, (-1, 0, 1), (1, 2, 3)),   # 86 rules: 113 563 multisets
+              (3, 2, (-1, 0, 1), (2,)),         # 273 rules: 37 401 pairs
+              (2, 2, (-2, -1, 0, 1, 2), (2,)))  # 222 rules: 24 753 pairs
+    for labels, arity, shifts, sizes in scopes:
+        rules = small_rules(labels, arity, shifts)
+        for size in sizes:
+            for combo in itertools.combinations_with_replacement(range(len(rules)), size):
+                cur.append([rules[i] for i in combo])
+                if len(cur) == block:
+                    yield {"id": f"x{k}", "kind": "exhaustive", "multisets": cur}
+                    k, cur = k + 1, []
+    if cur:
+        yield {"id": f"x{k}", "kind": "exhaustive", "multisets": cur}
 
 
 def _key(rule):
@@ -80,6 +123,13 @@ def _key(rule):
 
 
 def run_case(case):
+    if case.get("kind") == "exhaustive":
+        nt = False
+        for j, rules in enumerate(case["multisets"]):
+            r = run_case({"id": f"{case['id']}/{j}", "shape": "exhaustive", "rules": rules, "order_seed": "x"})
+            nt = nt or r["nontrivial"]
+            base.ctx().count("c03.exhaustive_multisets")
+        return {"nontrivial": nt, "fingerprint": fp(case["id"])}
     from comb_spec_searcher.rule_db.forest import TableMethod
 
     cx = base.ctx()
